@@ -12,6 +12,9 @@ from models.m_str import utf8_valid, char_width
 PROGRAMS = {'core': dict(crate='vaporetto', features=['train', 'kytea'])}
 
 
+DIRTY = {'tokenized': 'p/A/B q/C/D r', 'partial': 'p/A/B|q/C/D-r'}
+
+
 def build_sentence(e, prog, job, fmt, st):
     """sentence from job parameters: text classes, symbolic labels, tag presence pattern, symbolic tags"""
     n = job['n']
@@ -77,12 +80,20 @@ def harness_write_parse(e, prog, job, fmt, st):
     buf = Cell(mk_str('stale'))
     S.call(e, prog, 'Sentence', writer, [Ref(cell), Ref(buf)])
     e.check(utf8_valid(e, buf.v.b), 'written text is valid UTF-8')
-    r2 = S.new_sentence(e, prog, fmt, buf.v)
+    if job.get('reuse'):
+        # the written text is parsed by update_* into a sentence object that held other (tagged) content before
+        rd = S.new_sentence(e, prog, fmt, mk_str(DIRTY[fmt]))
+        if rd.var != 'Ok':
+            raise Panic('parser rejected the fixed warm-up text')
+        c2 = Cell(rd.f[0].v)
+        r2 = S.update_sentence(e, prog, c2, fmt, buf.v)
+    else:
+        r2 = S.new_sentence(e, prog, fmt, buf.v)
+        c2 = Cell(r2.f[0].v) if r2.var == 'Ok' else None
     if r2.var != 'Ok':
         e.fail('parser accepts the written text')
         return
     e.check(True, 'parser accepts the written text')
-    c2 = Cell(r2.f[0].v)
     o2 = S.observe(e, prog, c2, writers=False, tokens=(fmt == 'tokenized'))
     e.check(bytes_eq(e, o2.raw, sv.b), 'raw text survives the round trip')
     okb = len(o2.boundaries) == n - 1
@@ -147,7 +158,10 @@ def describe(job, fmt, st, m):
     ops = [{'op': 'sentence', 'id': 'a', 'kind': 'raw', 'text': text}, {'op': 'set_boundaries', 's': 'a', 'b': labels}]
     if job['n_tags']:
         ops += [{'op': 'reset_tags', 's': 'a', 'n': job['n_tags']}, {'op': 'set_tags', 's': 'a', 'tags': tags}]
-    ops += [{'op': 'reparse', 'from': 'a', 'to': 'b', 'fmt': fmt}, {'op': 'observe', 's': 'b'}]
+    if job.get('reuse'):
+        ops += [{'op': 'sentence', 'id': 'b', 'kind': fmt, 'text': DIRTY[fmt]}, {'op': 'reparse', 'from': 'a', 'to': 'b', 'fmt': fmt, 'update': True}, {'op': 'observe', 's': 'b'}]
+    else:
+        ops += [{'op': 'reparse', 'from': 'a', 'to': 'b', 'fmt': fmt}, {'op': 'observe', 's': 'b'}]
     return {'job': job, 'fmt': fmt, 'text': text, 'labels': labels, 'tags': tags, 'ops': ops}
 
 
